@@ -252,17 +252,19 @@ impl<T> OneShotShared<T> {
       // EMPTY or WRITING
       // If empty and all senders are gone, it's disconnected.
       if current_state == STATE_EMPTY && self.sender_count.load(Ordering::Acquire) == 0 {
-        // Attempt to transition to CLOSED if not already done by last sender drop
-        self
-          .state
-          .compare_exchange(
-            STATE_EMPTY,
-            STATE_CLOSED,
-            Ordering::Relaxed,
-            Ordering::Relaxed,
-          )
-          .ok();
-        Err(TryRecvError::Disconnected)
+        // Attempt to transition to CLOSED if not already done by last sender drop. The state
+        // was read before the count: the last sender may have completed its send (and gone
+        // away) in between, so only a successful CAS (or an already CLOSED state) means
+        // disconnected; otherwise re-evaluate the now final state and take the value.
+        match self.state.compare_exchange(
+          STATE_EMPTY,
+          STATE_CLOSED,
+          Ordering::AcqRel,
+          Ordering::Acquire,
+        ) {
+          Ok(_) | Err(STATE_CLOSED) => Err(TryRecvError::Disconnected),
+          Err(_) => self.try_recv(),
+        }
       } else {
         Err(TryRecvError::Empty) // Not ready yet, or senders still active / writing
       }
@@ -293,16 +295,16 @@ impl<T> OneShotShared<T> {
           }
           // Check again if all senders dropped AFTER deciding it's Empty
           if current_state == STATE_EMPTY && self.sender_count.load(Ordering::Acquire) == 0 {
-            self
-              .state
-              .compare_exchange(
-                STATE_EMPTY,
-                STATE_CLOSED,
-                Ordering::Relaxed,
-                Ordering::Relaxed,
-              )
-              .ok();
-            return Poll::Ready(Err(RecvError::Disconnected));
+            // Same stale-state window as in `try_recv`: trust only the CAS.
+            match self.state.compare_exchange(
+              STATE_EMPTY,
+              STATE_CLOSED,
+              Ordering::AcqRel,
+              Ordering::Acquire,
+            ) {
+              Ok(_) | Err(STATE_CLOSED) => return Poll::Ready(Err(RecvError::Disconnected)),
+              Err(_) => continue, // a send completed meanwhile: go round and take the value
+            }
           }
 
           self.receiver_waker.register(cx.waker());
